@@ -433,7 +433,7 @@ def compute_cold(zyg, ctx, quick):
     want = []
     for i in range(n):
         if quick and i not in core_: want.append((i, ()))
-        else: want += [(i, ms) for ms in modseqs(1 if quick else 2)]
+        else: want += [(i, ms) for ms in modseqs(2 if (i in core_ and not quick) else 1)]
     want = ctx.shuffled(want)
     hist = [[('m', m) for m in ms] + [('s', i)] for i, ms in want]
     for (i, ms), (res, tainted) in zip(want, zyg.map(hist)):
@@ -544,8 +544,8 @@ def run(ctx):
     ctx.guard('executions answered from the per-session query_results cache', c.get('executions_answered_from_query_results', 0), mech(10 if ctx.quick else 100))
     ctx.guard('results compared after modifications that change the pristine answer',
               c.get('results_compared_where_the_modifications_change_the_answer', 0), 400 if ctx.quick else 20000)
-    ctx.guard('distinct results', len(results), 80 if ctx.quick else 300)
-    ctx.guard('distinct pristine answers', distinct_cold, 80 if ctx.quick else 300)
+    ctx.guard('distinct results', len(results), 80 if ctx.quick else 150)
+    ctx.guard('distinct pristine answers', distinct_cold, 80 if ctx.quick else 150)
     ctx.guard('pool size', n, 80)
     ctx.assume('SQLite only (the only engine that can execute SQL here); adapt_sql for the other paramstyles is covered by C30')
     ctx.assume('a pristine process = a child forked from a zygote that imported pony and mapped the schema and never executed a statement')
